@@ -246,26 +246,34 @@ def rule_scanner(run, F, cfg):
 
 
 def rule_brackets(run, F, cfg):
-    """parse_host: a ':' ends the host only outside an IPv6 literal: `[` opens, `]` closes"""
+    """parse_host: a ':' ends the host only outside an IPv6 literal: `[` opens, `]` closes (the flag is found
+    by its role — the boolean local written under the '[' and ']' arms — not by its name)"""
     f = F.fn("url_parser::parser::Parser::parse_host")
     run.touched(f)
-    upd = []
+    upd = {}
     for b, i, st in f.statements():
-        if st["k"] == "assign" and not st["pl"]["p"] and f.varnames.get(st["pl"]["l"]) == "inside_square_brackets":
+        if st["k"] == "assign" and not st["pl"]["p"] and st["pl"]["l"] in f.varnames and st["pl"]["l"] > f.argc:
+            val = f.vexpr_rvalue(st["rv"])
+            if val not in ("true", "false"):
+                continue
             c = dominating_conditions(f, b, render=f.vexpr_operand)
-            upd.append((f.vexpr_rvalue(st["rv"]), c.get("$c")))
+            ch = [v for k, v in c.items() if re.match(r"^\$\w+$", k) and isinstance(v, int) and v > 1]
+            upd.setdefault(f.varnames[st["pl"]["l"]], []).append((val, ch[0] if ch else None))
     want = sorted([("false", None), ("true", ord("[")), ("false", ord("]"))], key=str)
-    run.ob("C12.5.url-scanner-tables", "host:bracket-state", sorted(upd, key=str) == want,
-           f"inside_square_brackets starts false, becomes true at '[' and false at ']' (updates {upd})", site=f.loc(0), config=cfg)
+    flags = [n for n, u in upd.items() if sorted(u, key=str) == want]
+    run.ob("C12.5.url-scanner-tables", "host:bracket-state", len(flags) == 1,
+           f"exactly one boolean local of parse_host starts false, becomes true at '[' and false at ']' "
+           f"(boolean updates {upd})", site=f.loc(0), config=cfg)
     # the ':' arm breaks only when not inside brackets
-    sw = [(b, f.blocks[b]["t"]) for b in sorted(f.normal_blocks())
-          if f.blocks[b]["t"]["k"] == "switch" and f.vexpr_operand(f.blocks[b]["t"]["discr"]) == "$c"]
     ok = False
-    for b, t in sw:
+    for b in sorted(f.normal_blocks()):
+        t = f.blocks[b]["t"]
+        if t["k"] != "switch" or not re.match(r"^\$\w+$", f.vexpr_operand(t["discr"])):
+            continue
         tgt = dict((v, tb) for v, tb in t["targets"])
-        if ord(":") in tgt:
+        if ord(":") in tgt and flags:
             nb = f.blocks[tgt[ord(":")]]["t"]
-            ok = nb["k"] == "switch" and f.vexpr_operand(nb["discr"]) in ("$inside_square_brackets", "Not($inside_square_brackets)")
+            ok = nb["k"] == "switch" and f.vexpr_operand(nb["discr"]) in ("$" + flags[0], "Not($" + flags[0] + ")")
     run.ob("C12.5.url-scanner-tables", "host:colon-respects-brackets", ok,
-           "a ':' in the host scan is followed by the test of inside_square_brackets (port separator only outside `[..]`)",
+           "a ':' in the host scan is followed by the test of the bracket flag (port separator only outside `[..]`)",
            config=cfg)
